@@ -17,7 +17,7 @@ import ast
 import z3
 
 from .common import *
-from .C05 import _Struct, v_ok, v_res, v_exc, SequenceV, TupleVarV, TupleFixedV, SetV, MappingV, UnionV
+from .C05 import _Struct, v_ok, v_res, v_exc, SequenceV, TupleVarV, TupleFixedV, SetV, MappingV, UnionV, Validated
 from .C02 import variant
 from pyvc.lib import dict_parts
 from pyvc.state import QFact
@@ -314,4 +314,5 @@ class DeepCopy(_Rebuild):
 
 C04P = ("C04-",)
 CONTRACTS = [SetAttr(), DelAttr(), Eq(), Replace(), Updated(), Copy(), DeepCopy()] + \
-            [variant(c, "C04", C04P) for c in (SequenceV, TupleVarV, TupleFixedV, SetV, MappingV, UnionV)]
+            [variant(c, "C04", C04P) for c in (SequenceV, TupleVarV, TupleFixedV, SetV, MappingV, UnionV)] + \
+            [variant(Validated, "C04", ("",))]      # defaulted attributes go through the same immutable conversion
